@@ -13,7 +13,9 @@ vars == <<S, pos, l, subj, kf>>
 
 TraceInit == S = <<>> /\ pos = 1 /\ l = 1 /\ subj = [subject |-> "none"] /\ kf = {}
 
-Pure(P) == P /\ UNCHANGED livars
+(* P is evaluated as a plain boolean expression (the condition of an IF), never as an action:  *)
+(* TLC would otherwise branch on every disjunct / existential witness inside it                 *)
+Pure(P) == IF P THEN UNCHANGED livars ELSE FALSE
 
 NumMatrixOK(e) ==
     /\ IF e.kind = "decimal" THEN Num!DecimalMatrixOK(e.a, e.b, e.m) ELSE Num!RealMatrixOK(e.a, e.b, e.m)
